@@ -15,7 +15,7 @@ import shutil
 import tempfile
 import zipfile
 
-from simkit import corrupt, plan as P, streams, tlv, universe as U, world as W
+from simkit import budget, corrupt, plan as P, streams, tlv, universe as U, world as W
 from checks import common
 
 ID = 'C11'
@@ -182,6 +182,10 @@ def _gen_a(r):
     thr = r.choice([4, 16, 64, 8192, None])
     pl = {'check': ID, 'part': 'A', 'shape': shape, 'config': {'threshold': thr, 'kind': 'all',
                                                                 'bufsize': r.choice([None, None, 16, 16, 17, 64, 4096])}}
+    if r.random() < 0.2:
+        # the whole plan (reference included) runs with debug logging switched on: the logging paths look into
+        # the input object on their own (peekIntoStream), and they differ per kind of object
+        pl['config']['debug'] = True
     if shape in ('valid', 'corrupt'):
         w, cfg = common.gen_stream_workload(r, max_values=3)
         pl['workload'] = w
@@ -285,15 +289,31 @@ def execute(plan):
     return _exec_a(plan)
 
 
-def _outcomes(dec, opened, spec, kw, nmax):
+class _NoBudget(object):
+    def __enter__(self):
+        return self
+
+    def __exit__(self, *exc):
+        return False
+
+
+def _budget(steps):
+    return budget.StepBudget(steps) if steps else _NoBudget()
+
+
+def _outcomes(dec, opened, spec, kw, nmax, steps=None):
     """(one-shot outcome, streaming outcome) for a substrate; each substrate object is
-    used once, so the caller passes a factory."""
+    used once, so the caller passes a factory.  With `steps` the library code runs under a
+    deterministic step budget and an exhausted budget is the outcome 'Hang'."""
     from pyasn1 import error
     o = opened()
     try:
         try:
-            v, rest = dec.decode(o.sub, asn1Spec=spec, **kw)
+            with _budget(steps):
+                v, rest = dec.decode(o.sub, asn1Spec=spec, **kw)
             one = ('OK', U.absval(v), bytes(rest) if isinstance(rest, (bytes, bytearray)) else repr(rest))
+        except budget.Hang:
+            one = ('ERR', 'Hang')
         except Exception as ex:
             one = ('ERR', type(ex).__name__)
     finally:
@@ -302,15 +322,18 @@ def _outcomes(dec, opened, spec, kw, nmax):
     items = []
     try:
         try:
-            for x in dec.StreamingDecoder(o.sub, asn1Spec=spec, **kw):
-                if isinstance(x, error.SubstrateUnderrunError):
-                    items.append('UNDERRUN')
-                    break
-                items.append(U.absval(x))
-                if len(items) > nmax:
-                    items.append('TOO-MANY')
-                    break
+            with _budget(steps):
+                for x in dec.StreamingDecoder(o.sub, asn1Spec=spec, **kw):
+                    if isinstance(x, error.SubstrateUnderrunError):
+                        items.append('UNDERRUN')
+                        break
+                    items.append(U.absval(x))
+                    if len(items) > nmax:
+                        items.append('TOO-MANY')
+                        break
             st = ('STREAM', tuple(items), 'STOP')
+        except budget.Hang:
+            st = ('STREAM', (), 'Hang')
         except Exception as ex:
             st = ('STREAM', tuple(items), type(ex).__name__)
     finally:
@@ -377,12 +400,20 @@ def _exec_a(plan):
     nmax = 8 + len(b) // 2
     prev = streams.set_drop_threshold(conf.get('threshold'))
     kinds = plan.get('kinds') or KINDS
+    steps = None
+    if conf.get('debug'):
+        from pyasn1 import debug as _debug
+        _debug.setLogger(_debug.Debug('all', printer=lambda msg: None))
+        steps = 6000 * len(b) + 400000
+        ctr['knob.debug_logging'] = 1
     try:
-        ref = _outcomes(dec, lambda: open_kind('bytes', b), spec, kw, nmax)
+        ref = _outcomes(dec, lambda: open_kind('bytes', b), spec, kw, nmax, steps)
         trace.append(['ref', ref[0][0], ref[1][2], len(b)])
+        if 'Hang' in (_cls(ref[0]), _cls(ref[1])):
+            return common.skip_result('reference-exceeds-step-budget')
         for kind in kinds:
             streams.reset_drop_events()
-            got = _outcomes(dec, lambda: open_kind(kind, b, conf.get('bufsize')), spec, kw, nmax)
+            got = _outcomes(dec, lambda: open_kind(kind, b, conf.get('bufsize')), spec, kw, nmax, steps)
             trace.append(['kind', kind, got[0][0], got[1][2]])
             ctr['kind.%s' % kind] = ctr.get('kind.%s' % kind, 0) + 1
             pairs = [('one-shot', got[0], ref[0]), ('streaming', got[1], ref[1])]
@@ -405,6 +436,10 @@ def _exec_a(plan):
                     return res
     finally:
         streams.set_drop_threshold(None)
+        if conf.get('debug'):
+            _debug.setLogger(None)
+            while str(_debug.scope):
+                _debug.scope.pop()
     ctr['part.A'] = 1
     ctr['shape.%s' % plan['shape']] = 1
     ctr['ref.%s' % ref[0][0]] = 1
